@@ -305,7 +305,7 @@ func userFunctionScenario(w *world) engine.Scenario {
 	name := "userfn/" + w.name
 	var ps []pair
 	for b := 1; b <= w.rowLen; b++ {
-		for n := 1; n <= 4 && n*b <= w.rowLen; n++ {
+		for n := 1; n <= 8 && n*b <= w.rowLen; n++ {
 			ps = append(ps, pair{b, n})
 		}
 	}
